@@ -123,8 +123,8 @@ def gen(rng, tier):
         return gen_stat(rng)
     if u < 0.16:
         return gen_limit(rng)
-    eng = rng.choice(["langevin", "langevin", "xl_damp", "ksa_damp"])
-    real = rng.random() < 0.03
+    eng = rng.choice(["langevin", "langevin", "xl_damp", "ksa_damp", "langevin", "langevin", "xl_damp", "ksa_damp", "xl_esmd", "sh_model"])
+    real = rng.random() < 0.03 and eng not in ("xl_esmd", "sh_model")
     cfg = {"engine": "ksa" if eng == "ksa_damp" else eng, "driver": "real" if real else "stub", "kind": "exact"}
     if real and rng.random() < 0.3:
         cfg.update(engine="sh", batch=["h2co"], n_states=2, steps=2, rotate=rng.randrange(1 << 30), scf_eps=1e-8)
@@ -134,7 +134,13 @@ def gen(rng, tier):
         cfg.update(batch=rng.choice(BATCHES), steps=rng.randint(2, 8), stub={"pot": rng.choice(["harm", "morse", "zero"]), "gamma": 0.3})
         if rng.random() < 0.3:
             cfg["extra_pad"] = 1
-    cfg["dt"] = 0.2 if cfg["engine"] == "sh" else rng.choice([0.05, 0.1, 0.25, 0.5, 1.0])
+    if eng == "xl_esmd":
+        cfg.update(n_states=2, active_state=rng.randint(1, 2))
+    if eng == "sh_model":
+        cfg.update(batch=rng.choice([["h2o"], ["h2o", "h2o"], ["nh3", "h2o"]]), n_states=rng.randint(2, 4), model_seed=rng.randrange(1 << 20), substeps=8)
+        cfg["initial_state"] = [rng.randint(1, cfg["n_states"]) for _ in cfg["batch"]]
+        cfg.pop("extra_pad", None)
+    cfg["dt"] = 0.2 if cfg["engine"] in ("sh", "sh_model") else rng.choice([0.05, 0.1, 0.25, 0.5, 1.0])
     ratio = 10 ** rng.uniform(-4, 1)  # dt / damp
     damp = cfg["dt"] / ratio
     cfg["damp"] = damp
@@ -142,7 +148,7 @@ def gen(rng, tier):
         cfg["ksa_damp"] = damp
     cfg["temp"] = rng.choice([0.0, 10.0, 77.0, 300.0, 300.0, 1200.0, 2000.0])
     cfg["seed"] = rng.randrange(1 << 20)
-    if cfg["engine"] in ("xl_damp", "ksa"):
+    if cfg["engine"] in ("xl_damp", "ksa", "xl_esmd"):
         cfg["k"] = rng.randint(3, 9)
     cfg["out"] = {"molid": [0], "print": 0, "ckpt": 0, "xyz": 0, "h5": {"data": 0, "coordinates": 0, "velocities": 0, "forces": 0}}
     cfg["reuse_P"] = True
@@ -240,11 +246,11 @@ def _exact(record, root):
     for s in range(S):
         want += [init_calls + s, init_calls + s + 1]
     have = [a["calls"] for a in apps]
-    if cfg["engine"] != "sh" and have != want:
+    if cfg["engine"] not in ("sh", "sh_model") and have != want:
         failures.append(core.fail("schedule", f"thermostat applications relative to force evaluations: {have[:10]}, expected two half-step applications per step around the force evaluation {want[:10]}"))
-    if cfg["engine"] == "sh" and len(have) != 2 * S:
+    if cfg["engine"] in ("sh", "sh_model") and len(have) != 2 * S:
         failures.append(core.fail("schedule", f"{len(have)} thermostat applications in {S} steps, expected {2 * S}"))
-    if cfg["engine"] != "sh":
+    if cfg["engine"] not in ("sh", "sh_model"):
         # documented positions: O(dt/2) . kick . drift . force . kick . O(dt/2); nothing touches the velocities
         # or positions between the closing application of one step and the opening one of the next
         for s_ in range(1, S):
